@@ -78,6 +78,10 @@ def replace_at(t, path, new):
     return tuple(lst)
 
 
+def _replace_at_marker(tree, slot, marker):
+    return replace_at(tree, slot, ('leaf', marker, None))
+
+
 def call_nodes(t, path=()):
     out = []
     if t[0] in ('meth', 'pipe') or (t[0] == 'call' and t[2]):
@@ -251,6 +255,17 @@ def explore_sentence(res, tree, idx, pairs, partner_toks, full=True):
             for sep in ['\n'] + (SEPS if full else SEPS[:3]):
                 text = ' '.join(first) + sep + ' '.join(second)
                 check(res, text, exp2, f'sep:{sep!r}', first, len(first), ' '.join(first) + '\n' + ' '.join(second))
+    # --- depth: many redundant parenthesis pairs around one operand, also inside brackets and spread over lines
+    if idx % 31 == 0:
+        for slot in (S.composite_slots(tree) + leaf_slots(tree))[:3]:
+            sub = ' '.join(S.render(get_at(tree, slot), frozenset(p[len(slot):] for p in par0 if p[:len(slot)] == slot and len(p) > len(slot))))
+            for k in (3, 33, 70):
+                for opener, closer in (('( ', ' )'), ('(\n', '\n)'), ('( # c\n', ' )')):
+                    wrapped = opener * k + sub + closer * k
+                    marker = '\x00SLOT\x00'
+                    toks = S.render(_replace_at_marker(tree, slot, marker), par0 - {slot})
+                    text = ' '.join(toks).replace(marker, wrapped)
+                    check(res, text, expected, f'deep-paren:{k}', base, None, base_text)
     if not pairs:
         return
     # --- pairs of rewrites
